@@ -1,6 +1,7 @@
 import FractopoModel.Lemmas.CropHelpers
 import FractopoModel.Model.Crop
 import FractopoModel.Generated.CropPipeline
+import FractopoModel.Generated.ZCoordinates
 /-!
 # C07 — cropping keeps exactly the trace parts inside the areas, with attributes
 
@@ -371,5 +372,23 @@ example : Gen.crop_to_target_areas (D := String) (fun (_ : Nat) => false) (fun g
     [("a", 1), ("b", 2), ("c", 5)] false false = .ok [("a", 1), ("b", 3)] := by decide
 
 end Dissolve
+
+/-! ### z-coordinate removal in front of the crop (`Network(truncate_traces=True)`) -/
+
+theorem zip_map_self {α β γ : Type} (f : α → β → γ) (g : α → β) (l : List α) : List.zipWith f l (l.map g) = l.map fun r => f r (g r) := by
+  induction l with
+  | nil => rfl
+  | cons a as ih => simp [ih]
+
+/-- the frame `Network` crops after removing Z values has, for every index, the caller's rows with their labels and data and their own geometry in 2-D
+(regenerated `remove_z_coordinates_from_geodata`): attribute carry-over is not disturbed by the clean-up in front of the crop -/
+theorem C07_generated_z_removal {L D G : Type} [BEq L] [LawfulBEq L] (dropz : G → G) (nan : G) (frame : List (L × D × G)) :
+    Gen.remove_z_coordinates_from_geodata dropz nan frame = .ok (frame.map fun r => (r.1, r.2.1, dropz r.2.2)) := by
+  unfold Gen.remove_z_coordinates_from_geodata pyAssignAligned
+  simp only [List.map_map, Function.comp_def]
+  have : (List.map (fun r => r.1) frame == List.map (fun r => r.1) frame) = true := by simp
+  simp only [this, if_true, zip_map_self]
+
+example : Gen.remove_z_coordinates_from_geodata (fun g : Nat => g % 100) 0 [(7, "a", 301), (7, "b", 402), (3, "c", 5)] = .ok [(7, "a", 1), (7, "b", 2), (3, "c", 5)] := by decide
 
 end C07
